@@ -2,19 +2,24 @@ package main
 
 // C08 — a failed load or reload leaves nothing behind.
 //
-// Every case is a HISTORY of attempts (load = casket.Start, validate =
+// Every case is a HISTORY of attempts (load = casket.LoadCasketfile + casket.Start, validate =
 // casket.ValidateAndExecuteDirectives(justValidate), execute = the same with justValidate=false on an
 // instance made by the VerifNewInstance hook, reload = Instance.Restart, sigusr1 = a real SIGUSR1
-// through casket.TrapSignals and a registered Casketfile loader) and environment changes (htpasswd file
-// rewritten) that is executed IN-PROCESS in a fresh child process of the harness binary, on loopback
-// (127.0.0.N:0).  After every step the child records the process-global observables: result class and
-// latency, len(casket.Instances()), casket.ListPlugins()["event_hooks"], the process's LISTEN sockets
-// (/proc/self/net/tcp{,6} joined with the fd table), and the responses of every running site (marker
-// header, basic-auth behaviour, log-roller behaviour).  Each history is run twice: as it is, and with the
-// attempts on invalid configurations erased ("what a process that never saw the failures does").  The Coq
-// side evaluates the faithful model on the same history (correspondence) and an executable statement of
-// the property on the observations alone (frame of every failed attempt; valid => ok in bounded time;
-// every surviving step indistinguishable from the failure-free run).
+// through casket.TrapSignals and a registered Casketfile loader that reads a file) and environment changes
+// (htpasswd file rewritten) that is executed IN-PROCESS in a fresh child process of the harness binary, on
+// loopback (127.0.0.N:0).  Fault kinds: parse errors, bad directive arguments at four places of the directive
+// order, htpasswd files, failing startup callbacks, ports in use, the Casketfile being unloadable at that
+// moment (removed / unreadable / loader returning an error - for sigusr1: "the loader fails at signal time"),
+// and a plugin directive whose setup panics during a reload (contained by Restart).  After every step the
+// child records the process-global observables: result class and latency, len(casket.Instances()),
+// casket.ListPlugins()["event_hooks"], which of these hooks run when the events are emitted, the process's
+// LISTEN sockets (/proc/self/net/tcp{,6} joined with the fd table), the responses of every running site
+// (marker header, basic-auth behaviour, log-roller behaviour), and which configurations' proxy health-check
+// workers are probing a loopback backend.  Each history is run twice: as it is, and with the attempts on
+// invalid configurations erased ("what a process that never saw the failures does").  The Coq side evaluates
+// the faithful model on the same history (correspondence) and an executable statement of the property on the
+// observations alone (frame of every failed attempt; valid => ok in bounded time; every surviving step
+// indistinguishable from the failure-free run).
 
 import (
 	"bufio"
@@ -42,14 +47,15 @@ import (
 	"time"
 
 	"github.com/tmpim/casket"
+	"github.com/tmpim/casket/caskethttp/httpserver"
 )
 
 // ---------------------------------------------------------------------------------------------
 // case description
 
 type c08Eff struct {
-	K    string `json:"k"`              // bad | on | log | auth
-	N    int    `json:"n,omitempty"`    // on: number of hooks; bad: 0 early (timeouts) 1 mid (gzip) 2 late (redir) 3 a bad `on` line
+	K    string `json:"k"`              // bad | on | log | auth | proxy (with a health check of the loopback backend)
+	N    int    `json:"n,omitempty"`    // on: number of hooks; bad: 0 early (timeouts) 1 mid (gzip) 2 late (redir) 3 a bad `on` line 4 after proxy (markdown)
 	F    int    `json:"f,omitempty"`    // log / htpasswd file id
 	U    int    `json:"u,omitempty"`    // auth: user id
 	Size int    `json:"size,omitempty"` // log: rotate_size in MB
@@ -58,7 +64,8 @@ type c08Eff struct {
 
 type c08Cfg struct {
 	ID    int      `json:"id"`
-	Parse string   `json:"parse,omitempty"` // "", syntax, unknown, import
+	Parse string   `json:"parse,omitempty"` // "", syntax, unknown, import, loader-gone | loader-unreadable | loader-error (the Casketfile cannot be loaded at that moment)
+	Panic bool     `json:"panic,omitempty"` // reload / sigusr1 only: a plugin directive executed after all the others panics in its setup
 	Effs  []c08Eff `json:"effs"`            // in directive execution order
 	Addrs []int    `json:"addrs"`           // 1..3 = 127.0.0.N:0 ; 9 = a port held by someone else
 }
@@ -89,7 +96,7 @@ type c08Obs struct {
 	Res   int      `json:"res"` // 0 ok 1 error 2 panic/crash 3 hang 4 not run (no instance to reload)
 	Ms    int64    `json:"ms"`
 	Err   string   `json:"err,omitempty"`
-	EC    string   `json:"ec,omitempty"` // class of the error message
+	EC    string   `json:"ec,omitempty"`   // class of the error message
 	Proc  string   `json:"proc,omitempty"` // set when /proc/self/net/tcp{,6} disagrees with the fd table
 	NInst int      `json:"ninst"`
 	Hooks []int    `json:"hooks"` // birth step of every registered hook, sorted
@@ -98,6 +105,8 @@ type c08Obs struct {
 	Sites [][]int  `json:"sites"` // per instance, the marker answered by each of its servers, sorted
 	Auth  [][]int  `json:"auth"`  // per instance: status class without / with password 1 / with password 2
 	Roll  int      `json:"roll"`  // 0 not probed, 1 no rotation, 2 rotated
+	Fired []int    `json:"fired"` // birth step of every hook that ran when the three events were emitted, sorted
+	Probe []int    `json:"probe"` // steps whose proxy health-check workers probed the loopback backend after this step, sorted
 }
 
 const c08ChildTimeout = 90 * time.Second
@@ -123,7 +132,7 @@ func c08HtOK(h c08Ht, u int) bool {
 }
 
 func c08Valid(mode string, c *c08Cfg, env map[int]c08Ht) bool {
-	if c.Parse != "" {
+	if c.Parse != "" || c.Panic {
 		return false
 	}
 	if !c08DirectivesOnly(mode) {
@@ -172,10 +181,97 @@ type c08Child struct {
 	busyPort int
 	busyIno  uint64
 	logbuf   *c08LogBuf
-	cur      []byte // what the registered Casketfile loader returns
 	curMu    sync.Mutex
 	names    map[string]int // hook name -> birth step
 	trapAt   time.Time
+	// the loopback backend the proxy directives of the configurations point to; it counts the health probes
+	backend     net.Listener
+	backendPort int
+	ownInos     map[uint64]bool // LISTEN sockets of the harness itself (port blocker, backend)
+	probeMu     sync.Mutex
+	probes      map[int]int // step of the configuration (from the probe path) -> probes seen
+	loaderErr   bool        // the registered Casketfile loader returns an error
+}
+
+func (ch *c08Child) casketfilePath() string { return filepath.Join(ch.dir, "Casketfile") }
+
+const c08ProbeInterval = 25 * time.Millisecond
+
+// startBackend: a loopback HTTP server standing for the backend of every `proxy` line; a health probe of the
+// configuration attempted in step s asks for /hc-s<s>.
+func (ch *c08Child) startBackend() error {
+	ln, err := net.Listen("tcp", "127.0.0.1:0")
+	if err != nil {
+		return err
+	}
+	ch.backend = ln
+	ch.backendPort = ln.Addr().(*net.TCPAddr).Port
+	ch.ownInos[c08ListenerIno(ln)] = true
+	ch.probes = map[int]int{}
+	go http.Serve(ln, http.HandlerFunc(func(w http.ResponseWriter, r *http.Request) {
+		if strings.HasPrefix(r.URL.Path, "/hc-s") {
+			if n, err := strconv.Atoi(r.URL.Path[5:]); err == nil {
+				ch.probeMu.Lock()
+				ch.probes[n]++
+				ch.probeMu.Unlock()
+			}
+		}
+		w.WriteHeader(200)
+	}))
+	return nil
+}
+
+func c08ListenerIno(ln net.Listener) uint64 {
+	var ino uint64
+	if f, err := ln.(*net.TCPListener).File(); err == nil {
+		var st syscall.Stat_t
+		if syscall.Fstat(int(f.Fd()), &st) == nil {
+			ino = st.Ino
+		}
+		f.Close()
+	}
+	return ino
+}
+
+// probing: which configurations' health-check workers are alive now. In-flight probes of a worker that was
+// just stopped are let through first; then the backend is watched for several probe intervals.
+func (ch *c08Child) probing() []int {
+	out := []int{}
+	if ch.backend == nil {
+		return out
+	}
+	time.Sleep(2 * c08ProbeInterval)
+	ch.probeMu.Lock()
+	ch.probes = map[int]int{}
+	ch.probeMu.Unlock()
+	time.Sleep(5 * c08ProbeInterval)
+	ch.probeMu.Lock()
+	for s := range ch.probes {
+		out = append(out, s)
+	}
+	ch.probeMu.Unlock()
+	sort.Ints(out)
+	return out
+}
+
+var c08FiredRe = regexp.MustCompile(`Command "/bin/true [^"]*" with ID ([0-9a-f-]+)`)
+
+// fired emits the three events `on` knows and reports which registered hooks ran (by birth step).
+func (ch *c08Child) fired() []int {
+	out := []int{}
+	mark := ch.logbuf.Len()
+	casket.EmitEvent(casket.InstanceStartupEvent, nil)
+	casket.EmitEvent(casket.ShutdownEvent, nil)
+	casket.EmitEvent(casket.CertRenewEvent, nil)
+	for _, m := range c08FiredRe.FindAllStringSubmatch(ch.logbuf.From(mark), -1) {
+		if b, ok := ch.names["on-"+m[1]]; ok {
+			out = append(out, b)
+		} else {
+			out = append(out, 999) // a hook that is not in the registry ran
+		}
+	}
+	sort.Ints(out)
+	return out
 }
 
 type c08LogBuf struct {
@@ -229,7 +325,7 @@ var c08Events = []string{"startup", "shutdown", "certrenew"}
 
 // render writes the Casketfile text of an abstract configuration. Lines are emitted in an order
 // derived from the id (file order is irrelevant to execution order, C09).
-func (ch *c08Child) render(c *c08Cfg) string {
+func (ch *c08Child) render(c *c08Cfg, step int) string {
 	var text strings.Builder
 	for bi, a := range c.Addrs {
 		key, bind := fmt.Sprintf("127.0.0.%d:0", a), fmt.Sprintf("127.0.0.%d", a)
@@ -252,6 +348,8 @@ func (ch *c08Child) render(c *c08Cfg) string {
 					lines = append(lines, "timeouts bogus")
 				case 1:
 					lines = append(lines, "gzip {\n\t\tbogus_subdirective\n\t}")
+				case 4:
+					lines = append(lines, "markdown /md {\n\t\tbogus_subdirective\n\t}")
 				case 3:
 					// a bad line of the `on` directive after good ones: the directive registers nothing
 					lines = append(lines, fmt.Sprintf("on startup /bin/true c%d-a", c.ID), fmt.Sprintf("on shutdown /bin/true c%d-b", c.ID),
@@ -271,7 +369,13 @@ func (ch *c08Child) render(c *c08Cfg) string {
 				lines = append(lines, fmt.Sprintf("log / %s \"{>X-Pad}\" {\n\t\trotate_size %d\n\t}", p, e.Size))
 			case "auth":
 				lines = append(lines, fmt.Sprintf("basicauth / u%d htpasswd=../ht%d", e.U, e.F))
+			case "proxy":
+				lines = append(lines, fmt.Sprintf("proxy /api 127.0.0.1:%d {\n\t\thealth_check /hc-s%d\n\t\thealth_check_interval %s\n\t\thealth_check_timeout 2s\n\t}",
+					ch.backendPort, step, c08ProbeInterval))
 			}
+		}
+		if bi == 0 && c.Panic {
+			lines = append(lines, "c08panic")
 		}
 		if bi == 0 && c.Parse == "unknown" {
 			lines = append(lines, "frobnicate everything")
@@ -327,7 +431,7 @@ func (ch *c08Child) listenSockets() ([]uint64, int) {
 			continue
 		}
 		ino, _ := strconv.ParseUint(strings.TrimSuffix(strings.TrimPrefix(l, "socket:["), "]"), 10, 64)
-		if ino == ch.busyIno {
+		if ch.ownInos[ino] {
 			continue
 		}
 		if v, err := syscall.GetsockoptInt(fd, syscall.SOL_SOCKET, syscall.SO_ACCEPTCONN); err != nil || v == 0 {
@@ -374,7 +478,7 @@ func (ch *c08Child) procNetListen() []uint64 {
 				continue
 			}
 			ino, _ := strconv.ParseUint(fs[9], 10, 64)
-			if own[ino] && ino != ch.busyIno {
+			if own[ino] && !ch.ownInos[ino] {
 				inos = append(inos, ino)
 			}
 		}
@@ -494,6 +598,8 @@ func (ch *c08Child) observe(step int, o *c08Obs) {
 		o.Sites = append(o.Sites, ms)
 		o.Auth = append(o.Auth, au)
 	}
+	o.Fired = ch.fired()
+	o.Probe = ch.probing()
 }
 
 // rollProbe writes a little more than 1 MB of access-log lines through the newest instance and reports
@@ -553,6 +659,10 @@ func c08ErrString(err error) string {
 
 func c08MsgClass(e string) string {
 	switch {
+	case strings.Contains(e, "panic contained"):
+		return "panic"
+	case strings.Contains(e, "loading updated Casketfile") || strings.Contains(e, "loading Casketfile"):
+		return "loader"
 	case strings.Contains(e, "not found in"):
 		return "auth-user"
 	case strings.Contains(e, "Get password matcher") && strings.Contains(e, "parsing htpasswd"):
@@ -568,8 +678,35 @@ func c08MsgClass(e string) string {
 }
 
 // attempt runs one attempt under a watchdog; res 3 = did not return.
-func (ch *c08Child) attempt(op *c08Op) (int, string) {
-	text := ch.render(op.Cfg)
+func (ch *c08Child) attempt(op *c08Op, step int) (int, string) {
+	text := ch.render(op.Cfg, step)
+	// the Casketfile the registered loader reads; a loader fault makes it unloadable at this moment
+	ch.curMu.Lock()
+	ch.loaderErr = false
+	os.RemoveAll(ch.casketfilePath())
+	switch op.Cfg.Parse {
+	case "loader-gone":
+	case "loader-unreadable":
+		if os.Geteuid() == 0 {
+			os.Mkdir(ch.casketfilePath(), 0o755) // reading a directory fails for root too
+		} else {
+			os.WriteFile(ch.casketfilePath(), []byte(text), 0o000)
+		}
+	case "loader-error":
+		os.WriteFile(ch.casketfilePath(), []byte(text), 0o644)
+		ch.loaderErr = true
+	default:
+		os.WriteFile(ch.casketfilePath(), []byte(text), 0o644)
+	}
+	ch.curMu.Unlock()
+	loaderFault := strings.HasPrefix(op.Cfg.Parse, "loader-")
+	// input: what the caller of the API hands over; with a loader fault it asks the loader first, as casketmain does
+	input := func() (casket.Input, error) {
+		if loaderFault {
+			return casket.LoadCasketfile("http")
+		}
+		return ch.input(text), nil
+	}
 	type rr struct {
 		res int
 		err string
@@ -581,9 +718,6 @@ func (ch *c08Child) attempt(op *c08Op) (int, string) {
 				done <- rr{2, fmt.Sprint(r)}
 			}
 		}()
-		ch.curMu.Lock()
-		ch.cur = []byte(text)
-		ch.curMu.Unlock()
 		var err error
 		switch op.Kind {
 		case "load":
@@ -593,16 +727,29 @@ func (ch *c08Child) attempt(op *c08Op) (int, string) {
 				_, err = casket.Start(in)
 			}
 		case "validate":
-			err = casket.ValidateAndExecuteDirectives(ch.input(text), nil, true)
+			var in casket.Input
+			if in, err = input(); err == nil {
+				err = casket.ValidateAndExecuteDirectives(in, nil, true)
+			}
 		case "execute":
-			err = casket.ValidateAndExecuteDirectives(ch.input(text), casket.VerifNewInstance("http"), false)
+			var in casket.Input
+			if in, err = input(); err == nil {
+				err = casket.ValidateAndExecuteDirectives(in, casket.VerifNewInstance("http"), false)
+			}
 		case "reload":
 			insts := casket.Instances()
 			if len(insts) == 0 {
 				done <- rr{4, "no instance"}
 				return
 			}
-			_, err = insts[0].Restart(ch.input(text))
+			var in casket.Input
+			if in, err = input(); err == nil {
+				var ni *casket.Instance
+				ni, err = insts[0].Restart(in)
+				if err == nil && ni == nil {
+					err = fmt.Errorf("panic contained in Restart: it returned (nil, nil)")
+				}
+			}
 		case "sigusr1":
 			if len(casket.Instances()) == 0 {
 				done <- rr{4, "no instance"}
@@ -625,6 +772,11 @@ func (ch *c08Child) attempt(op *c08Op) (int, string) {
 					line := s[i:]
 					line = line[:strings.Index(line, "\n")]
 					done <- rr{1, c08ErrString(fmt.Errorf("%s", line))}
+					return
+				}
+				if i := strings.Index(s, "[PANIC] Restart:"); i >= 0 && strings.Contains(s[i:], "\n") {
+					time.Sleep(5 * time.Millisecond)
+					done <- rr{1, "panic contained in Restart (SIGUSR1): " + c08ErrString(fmt.Errorf("%s", strings.SplitN(s[i:], "\n", 2)[0]))}
 					return
 				}
 				if strings.Contains(s, "[INFO] Reloading complete") {
@@ -665,7 +817,7 @@ func c08ChildMain(args []string) int {
 			c08OpTimeout = time.Duration(ms) * time.Millisecond
 		}
 	}
-	ch := &c08Child{dir: args[0], logbuf: &c08LogBuf{}, names: map[string]int{}}
+	ch := &c08Child{dir: args[0], logbuf: &c08LogBuf{}, names: map[string]int{}, ownInos: map[uint64]bool{}}
 	casket.Quiet = true
 	log.SetOutput(ch.logbuf)
 	os.MkdirAll(filepath.Join(ch.dir, "root"), 0o755)
@@ -680,17 +832,45 @@ func c08ChildMain(args []string) int {
 		return 2
 	}
 	ch.busyPort = ch.busy.Addr().(*net.TCPAddr).Port
-	if f, err := ch.busy.(*net.TCPListener).File(); err == nil {
-		var st syscall.Stat_t
-		if syscall.Fstat(int(f.Fd()), &st) == nil {
-			ch.busyIno = st.Ino
+	ch.busyIno = c08ListenerIno(ch.busy)
+	ch.ownInos[ch.busyIno] = true
+	usesProxy, usesPanic := false, false
+	for i := range in.Ops {
+		if c := in.Ops[i].Cfg; c != nil {
+			usesPanic = usesPanic || c.Panic
+			for _, e := range c.Effs {
+				usesProxy = usesProxy || e.K == "proxy"
+			}
 		}
-		f.Close()
 	}
+	if usesProxy {
+		if err := ch.startBackend(); err != nil {
+			fmt.Println(`{"fatal":"cannot listen"}`)
+			return 2
+		}
+	}
+	if usesPanic {
+		// a plugin directive, executed after all the others, whose setup panics
+		stdout := os.Stdout // the registration prints a notice
+		os.Stdout, _ = os.Open(os.DevNull)
+		httpserver.RegisterDevDirective("c08panic", "")
+		os.Stdout = stdout
+		casket.RegisterPlugin("c08panic", casket.Plugin{ServerType: "http", Action: func(c *casket.Controller) error {
+			panic("c08: the setup of this directive panics")
+		}})
+	}
+	// the Casketfile loader: reads the file, like the -conf loader of casketmain
 	casket.RegisterCasketfileLoader("c08", casket.LoaderFunc(func(serverType string) (casket.Input, error) {
 		ch.curMu.Lock()
 		defer ch.curMu.Unlock()
-		return ch.input(string(ch.cur)), nil
+		if ch.loaderErr {
+			return nil, fmt.Errorf("the configuration store is not reachable")
+		}
+		b, err := os.ReadFile(ch.casketfilePath())
+		if err != nil {
+			return nil, err
+		}
+		return casket.CasketfileInput{Contents: b, Filepath: ch.casketfilePath(), ServerTypeName: serverType}, nil
 	}))
 	for i := range in.Ops {
 		if in.Ops[i].Kind == "sigusr1" && ch.trapAt.IsZero() {
@@ -720,7 +900,7 @@ func c08ChildMain(args []string) int {
 			o.Res = 5
 		default:
 			t0 := time.Now()
-			o.Res, o.Err = ch.attempt(op)
+			o.Res, o.Err = ch.attempt(op, i+1)
 			if o.Res == 1 {
 				o.EC = c08MsgClass(o.Err)
 			}
@@ -818,7 +998,11 @@ func c08HtTerm(h c08Ht) string {
 }
 
 func c08CfgTerm(c *c08Cfg) string {
-	pf := map[string]string{"": "PNone", "syntax": "PSyntax", "unknown": "PUnknown", "import": "PImport"}[c.Parse]
+	pf := map[string]string{"": "PNone", "syntax": "PSyntax", "unknown": "PUnknown", "import": "PImport",
+		"loader-gone": "PLoader", "loader-unreadable": "PLoader", "loader-error": "PLoader"}[c.Parse]
+	if pf == "" {
+		pf = "PSyntax"
+	}
 	var effs, addrs []string
 	for _, e := range c.Effs {
 		switch e.K {
@@ -830,6 +1014,8 @@ func c08CfgTerm(c *c08Cfg) string {
 			effs = append(effs, cApp("ELog", cN(uint64(e.F)), cN(uint64(e.Size)), cBool(e.OK)))
 		case "auth":
 			effs = append(effs, cApp("EAuth", cN(uint64(e.F)), cN(uint64(e.U))))
+		case "proxy":
+			effs = append(effs, "EProxy")
 		}
 	}
 	for _, a := range c.Addrs {
@@ -851,6 +1037,9 @@ func c08OpTerm(op *c08Op) string {
 	if op.Kind == "write" {
 		return cPair(cApp("OWrite", cN(uint64(op.F)), c08HtTerm(*op.Ht)), "false")
 	}
+	if op.Cfg.Panic {
+		return cPair(cApp("OPanic", cBool(op.Kind == "sigusr1"), c08CfgTerm(op.Cfg)), cBool(op.Roll))
+	}
 	return cPair(cApp("OAttempt", c08ModeTerm[op.Kind], c08CfgTerm(op.Cfg)), cBool(op.Roll))
 }
 
@@ -871,7 +1060,7 @@ func c08ObsTerm(o *c08Obs) string {
 		auth = append(auth, c08IntsTerm(s))
 	}
 	return cApp("Build_obs", cN(uint64(o.Res)), cBool(o.Ms >= 5000), cN(uint64(o.NInst)), c08IntsTerm(o.Hooks),
-		cNList(o.Socks), cN(uint64(o.Fds)), cList(sites), cList(auth), cN(uint64(o.Roll)))
+		cNList(o.Socks), cN(uint64(o.Fds)), cList(sites), cList(auth), cN(uint64(o.Roll)), c08IntsTerm(o.Fired), c08IntsTerm(o.Probe))
 }
 
 // ---------------------------------------------------------------------------------------------
@@ -896,6 +1085,9 @@ func c08ErrClass(o *c08Obs) string {
 
 // stage at which the configuration is meant to fail, for the class name
 func c08Stage(c *c08Cfg, env map[int]c08Ht) (stage string, onBefore bool) {
+	if strings.HasPrefix(c.Parse, "loader-") {
+		return "loader", false
+	}
 	if c.Parse != "" {
 		return "parse", false
 	}
@@ -934,6 +1126,9 @@ func c08Stage(c *c08Cfg, env map[int]c08Ht) (stage string, onBefore bool) {
 	}
 	if busy {
 		return "listen", onBefore
+	}
+	if c.Panic {
+		return "panic", onBefore
 	}
 	return "valid", onBefore
 }
@@ -1049,6 +1244,8 @@ func c08Label(in *c08In, full, ref []c08Obs) string {
 				stage = "startup"
 			case strings.HasPrefix(ec, "auth"):
 				stage = "htpasswd"
+			case ec == "panic":
+				stage = "panic"
 			}
 			if stage != intended && op.Cfg.Parse == "" {
 				onBefore = false
@@ -1083,7 +1280,14 @@ func c08Label(in *c08In, full, ref []c08Obs) string {
 				return "frame:sites:" + mode + ":" + stage
 			case !c08EqII(o.Auth, prev.Auth):
 				return "frame:auth:" + mode + ":" + stage
+			case !c08EqInts(o.Fired, prev.Fired):
+				return "frame:fired:" + mode + ":" + hstage
+			case !c08EqInts(o.Probe, prev.Probe):
+				return "frame:probers:" + mode
 			}
+		}
+		if !c08EqInts(o.Fired, o.Hooks) {
+			return "hooks-unreachable:" + mode + ":" + stage
 		}
 		if c08Valid(mode, op.Cfg, env) {
 			if i+1 >= len(ref) {
@@ -1112,6 +1316,10 @@ func c08Label(in *c08In, full, ref []c08Obs) string {
 				return "asif:auth:" + cause(op.Cfg)
 			case o.Roll != rf.Roll:
 				return "asif:roll"
+			case !c08EqInts(o.Fired, rf.Fired):
+				return "asif:fired"
+			case !c08EqInts(o.Probe, rf.Probe):
+				return "asif:probers"
 			}
 		} else if o.Res == 0 {
 			if stage == "htpasswd" {
@@ -1138,6 +1346,9 @@ func c08Prepare(in *c08In) {
 			continue
 		}
 		op.Skip = false
+		if op.Cfg != nil && op.Kind != "reload" && op.Kind != "sigusr1" {
+			op.Cfg.Panic = false // elsewhere a panic of a plugin unwinds into the caller: not an attempt that returns
+		}
 	}
 }
 
@@ -1268,14 +1479,18 @@ func c08Run(in0 interface{}) Result {
 // generator
 
 var c08Faults = []string{"syntax", "unknown", "import", "bad0", "bad1", "bad2", "badon", "ht-missing", "ht-bad", "ht-nouser",
-	"startup", "busy", "busy-multi"}
+	"startup", "busy", "busy-multi", "bad4", "loader-gone", "loader-unreadable", "loader-error"}
+
+func c08LoaderFault(f string) bool { return strings.HasPrefix(f, "loader-") }
+
 var c08Modes = []string{"load", "validate", "reload", "sigusr1", "execute"}
 
 type c08Feat struct {
-	On   int  // hooks registered by `on`
-	Log  int  // 0 none, else rotate_size
-	Auth bool // basicauth with htpasswd
-	Two  bool // two listen addresses
+	On    int  // hooks registered by `on`
+	Log   int  // 0 none, else rotate_size
+	Auth  bool // basicauth with htpasswd
+	Two   bool // two listen addresses
+	Proxy bool // proxy with a health check of the loopback backend
 }
 
 // c08MkCfg builds a configuration with the given features and (optionally) one fault. htf = htpasswd file id.
@@ -1285,7 +1500,7 @@ func c08MkCfg(id int, ft c08Feat, fault string, htf int) *c08Cfg {
 		c.Addrs = []int{1, 2}
 	}
 	switch fault {
-	case "syntax", "unknown", "import":
+	case "syntax", "unknown", "import", "loader-gone", "loader-unreadable", "loader-error":
 		c.Parse = fault
 	case "busy":
 		c.Addrs = []int{9}
@@ -1315,6 +1530,15 @@ func c08MkCfg(id int, ft c08Feat, fault string, htf int) *c08Cfg {
 	}
 	if fault == "bad2" {
 		c.Effs = append(c.Effs, c08Eff{K: "bad", N: 2})
+	}
+	if ft.Proxy {
+		c.Effs = append(c.Effs, c08Eff{K: "proxy"})
+	}
+	if fault == "bad4" {
+		c.Effs = append(c.Effs, c08Eff{K: "bad", N: 4})
+	}
+	if fault == "panic" {
+		c.Panic = true
 	}
 	return c
 }
@@ -1371,6 +1595,7 @@ func c08RandCfg(r *Rand, id int, valid bool) *c08Cfg {
 		ft.Log = []int{1, 50}[r.Intn(2)]
 	}
 	ft.Auth = r.Chance(40)
+	ft.Proxy = r.Chance(10)
 	fault := ""
 	if !valid {
 		fault = c08Faults[r.Intn(len(c08Faults))]
@@ -1433,6 +1658,10 @@ func c08Random(r *Rand, maxLen int, k int) *c08In {
 		if last && c08DirectivesOnly(mode) {
 			mode = "load"
 		}
+		if !wantValid && (mode == "reload" || mode == "sigusr1") && r.Chance(12) {
+			c = c08RandCfg(r, c.ID, true) // a plugin executed after its directives panics
+			c.Panic = true
+		}
 		op := c08Op{Kind: mode, Cfg: c}
 		if last {
 			for _, e := range c.Effs {
@@ -1462,6 +1691,22 @@ func c08Gen(r *Rand, tier string) []interface{} {
 			if m == "reload" || m == "sigusr1" {
 				fin = m
 			}
+			if c08LoaderFault(f) {
+				// the Casketfile cannot be loaded at that moment (SIGUSR1: the loader fails at signal time)
+				if c08DirectivesOnly(m) {
+					continue
+				}
+				ins = append(ins, c08Template(m, f, bare, r.Bool(), false, fin, "bare"))
+				ins = append(ins, c08Template(m, f, c08Feat{On: 2}, true, false, fin, "on2"))
+				if tier == "thorough" || r.Chance(50) {
+					ins = append(ins, c08Template(m, f, rich, true, r.Bool(), fin, "rich"))
+				}
+				continue
+			}
+			// health-check workers started while `proxy` is parsed (the faults before it do not reach it)
+			if f == "bad2" || f == "bad4" || f == "startup" || f == "busy" || f == "busy-multi" || (tier == "thorough" && f != "badon") {
+				ins = append(ins, c08Template(m, f, c08Feat{Proxy: true, On: 1}, m == "load" && r.Bool(), false, fin, "proxy"))
+			}
 			ins = append(ins, c08Template(m, f, bare, r.Bool(), false, fin, "bare"))
 			ins = append(ins, c08Template(m, f, c08Feat{Auth: true, Two: f != "busy-multi" && r.Bool()}, r.Bool(), false, fin, "auth"))
 			ins = append(ins, c08Template(m, f, c08Feat{Log: 50}, false, false, fin, "log"))
@@ -1474,6 +1719,21 @@ func c08Gen(r *Rand, tier string) []interface{} {
 				ins = append(ins, c08Template(m, f, c08Feat{Auth: true}, true, true, "load", "authchg"))
 			}
 		}
+	}
+	// a plugin whose setup panics during a reload (Restart contains the panic)
+	for _, m := range []string{"reload", "sigusr1"} {
+		for k, tag := range []string{"bare", "on2", "auth", "proxy"} {
+			ft := []c08Feat{bare, {On: 2}, {Auth: true}, {Proxy: true, On: 1}}[k]
+			if tag == "auth" && tier != "thorough" && m == "reload" {
+				continue
+			}
+			ins = append(ins, c08Template(m, "panic", ft, true, false, m, tag))
+		}
+		// ... and the half-made instance it leaves in the list becomes instances[0]
+		z := c08Template(m, "panic", c08Feat{On: 1}, true, false, "reload", "zombie")
+		z.Ops = append(z.Ops, c08Op{Kind: "sigusr1", Cfg: c08MkCfg(7, c08Feat{On: 1}, "", 1)},
+			c08Op{Kind: "reload", Cfg: c08MkCfg(8, bare, "busy-multi", 1)}, c08Op{Kind: "load", Cfg: c08MkCfg(9, bare, "", 1)})
+		ins = append(ins, z)
 	}
 	nrand, maxLen := 60, 6
 	if tier == "thorough" {
@@ -1493,7 +1753,7 @@ func c08Gen(r *Rand, tier string) []interface{} {
 func init() {
 	register(&Property{
 		ID: "C08", Imports: "V.Lib V.C08_Model", Judge: "judge", Shard: 40,
-		Rule: "histories of load (casket.Start) / validate / reload (Instance.Restart) / SIGUSR1 attempts and htpasswd-file rewrites, run in-process in a fresh child of the harness with a watchdog per attempt: templates {load, validate, reload, SIGUSR1, API-driven execute} x {syntax error, unknown directive, missing import, bad argument early/mid/late in directive order, bad `on` line after good ones, htpasswd missing/malformed/without the user, failing startup callback, port in use alone/after another listener} x feature sets (on, log roller, basicauth htpasswd, two listeners), each followed by a valid load/reload using the same files, plus random histories (<= 6 steps quick, <= 10 thorough); every history is also run with the invalid attempts erased; non-trivial = at least one attempt failed and the history ran to its end",
+		Rule:   "histories of load (casket.Start) / validate / reload (Instance.Restart) / SIGUSR1 attempts and htpasswd-file rewrites, run in-process in a fresh child of the harness with a watchdog per attempt: templates {load, validate, reload, SIGUSR1, API-driven execute} x {syntax error, unknown directive, missing import, Casketfile removed / unreadable / loader error at that moment (SIGUSR1: at signal time, with a running configuration that has `on` hooks), bad argument early/mid/late/after proxy in directive order, bad `on` line after good ones, htpasswd missing/malformed/without the user, failing startup callback, port in use alone/after another listener, a plugin whose setup panics during a reload} x feature sets (on, log roller, basicauth htpasswd, proxy with a health check of a loopback backend, two listeners), each followed by a valid load/reload using the same files, plus random histories (<= 6 steps quick, <= 10 thorough); every history is also run with the invalid attempts erased; after every step the events are emitted (which hooks run) and the backend is watched (whose workers probe); non-trivial = at least one attempt failed and the history ran to its end",
 		Gen:    c08Gen,
 		Decode: func(raw json.RawMessage) (interface{}, error) { in := &c08In{}; return in, json.Unmarshal(raw, in) },
 		Run:    c08Run,
